@@ -40,6 +40,7 @@ ASSUMPTIONS = [
 MIN = {"quick": {"evaluations": 400000, "nontrivial": 100000, "outcomes": 12},
        "thorough": {"evaluations": 3000000, "nontrivial": 800000, "outcomes": 12}}
 
+CALL_CAP = 100
 BEH = ["ok", "raise-ev", "raise-all", "oneshot"]
 LEVELS = ["debug", "info", "warn", "error", "critical"]
 PREFIXES = ["", "a", "a.b", "a.b.c", "ab"]
@@ -75,6 +76,10 @@ class Obs:
         w = self.world
         what = classify(event)
         w.log.append((self.idx, what))
+        if len(w.log) > CALL_CAP:
+            # a correct publisher makes < 50 calls per publish here; stop feeding a runaway report loop
+            w.runaway = True
+            return
         if self.beh == "oneshot" and what[0] == "ev" and not self.fired:
             self.fired = True
             w.mutated.append(self.idx)
@@ -92,6 +97,7 @@ class World:
     def __init__(self, init, behs):
         from twisted.logger import LogPublisher
         self.log, self.mutated, self.raised = [], [], []
+        self.runaway = False
         self.obs = [Obs(i, behs[i], self) for i in range(3)]
         self.pub = LogPublisher(*[self.obs[i] for i in init])
         self.reg = list(init)          # reference: registration order
@@ -127,6 +133,9 @@ def p_step(w, op):
         w.pub(event)
     except Exception as e:  # the publisher must swallow observer exceptions
         return [("LogPublisher:publish-raised", "%s escaped publisher(event) with observers %r" % (type(e).__name__, reg))]
+    if w.runaway:
+        return [("LogPublisher:runaway-failure-reporting",
+                 "more than %d observer calls for one event with observers %r" % (CALL_CAP, reg))]
     got = [o for (o, what) in w.log if what == ("ev", n)]
     if w.mutated:
         # a one-shot observer removed itself during delivery: judge only the unambiguous part
@@ -204,6 +213,9 @@ def run_p(st, init, depth):
                         for sig, detail in bad:
                             st.violation(sig, detail, {"part": "P", "init": init, "behs": list(behs),
                                                        "ops": [list(o) for o in ops[:k + 1]]})
+                        if st.counters.get("violating_executions", 0) > 40:
+                            st.exhaustive = False   # enough witnesses; a broken publisher can be very slow
+                            return
                         break
     st.sample({"part": "P", "init": init, "behs": list(behs), "ops": [list(o) for o in ops]})
 
